@@ -100,6 +100,29 @@ Theorem C35_lin_cert_sound : forall c h p,
 Proof. exact lru_cert_sound. Qed.
 Print Assumptions C35_lin_cert_sound.
 
+(* ---- histories with pending calls.  In EVERY reachable configuration (calls may be waiting for
+   the lock, running, or finished but not yet returned) the completed calls together with the
+   calls that have released the lock — completed with the result they computed, returning "now" —
+   form a linearizable history; the calls still waiting or running are omitted.  This is
+   linearizability of an incomplete history (some completion of the pending calls is linearizable). *)
+Theorem C35_linearizable_pending :
+  forall (c : N) (P : nat -> list op) (cf : cfg pst loc op res),
+    reach pst loc op res p_init p_fin p_mstep (mode_of lru_locks) (init_cfg pst loc op res (p_new c) P) cf ->
+    exists (ts : list nat) (compl : list (@orec op res)) l q,
+      NoDup ts /\
+      Forall2 (fun t e => th pst loc op res cf t = Finished loc op res (o_call e) (o_op e) (o_res e) /\
+                          o_ret e = clk pst loc op res cf) ts compl /\
+      linearization r_fspec (r_new c) (done pst loc op res cf ++ compl) l q.
+Proof. exact (lru_linearizable_pending lru_locks C35_modes_exclusive). Qed.
+Print Assumptions C35_linearizable_pending.
+
+(* the certificate check for recorded histories cut at an instant: [h] the calls that had returned,
+   [pend] the calls in flight *)
+Theorem C35_lin_pcert_sound : forall c h pend inf chosen p,
+  lru_pcert c h pend inf chosen p = true -> linearizable_pending rspec op res r_step (r_new c) h pend.
+Proof. exact lru_pcert_sound. Qed.
+Print Assumptions C35_lin_pcert_sound.
+
 (* ---- the pinned source before the fix: Get ran under the read lock.  Two concurrent Gets
    complete and leave a list from which an element is missing (3 elements, 2 reachable). *)
 Theorem C35_concurrent_get_refuted :
